@@ -218,3 +218,11 @@ Proof.
   assert (Hs : p_block (read_position (w_eng w) v t) = height (w_env w)) by (unfold read_position; rewrite Hf; exact Hb).
   split; [apply restricted_open_changes_nothing | apply restricted_close_changes_nothing]; assumption.
 Qed.
+
+(* a trader with no stored record on the vAMM is never met by the one-action refusal (the default record carries
+   block 0), whatever happened in the block *)
+Lemma fresh_trader_unrestricted w v t :
+  find_position (w_eng w) v t = None -> height (w_env w) <> 0 -> require_not_restriction_mode w v t = Ok tt.
+Proof.
+  intros Hf Hh. apply restriction_passes. right. unfold read_position. rewrite Hf. cbn [default_position p_block]. congruence.
+Qed.
